@@ -24,7 +24,7 @@ LEVEL_TEXT = ("All cold-start runs with 1 <= steps <= 9 (thorough 22), 1 <= peri
 LEVEL_NOTE = "Exhaustive only within the stated bounds (evidence sets exhaustive: true); durations are whole numbers of steps as the property's quantifier (number of steps) states."
 RULE = ("case = (steps, period, layout, particle variables, direction); inside a case every numrec value is run and compared with the unsplit run. "
         "Non-trivial: steps % period != 0 or the records do not fill the last file; distinct by the tuple.")
-MANDATORY = ["steps_not_multiple_of_period", "last_file_partial", "last_file_full", "single_record_run", "sparse", "dense", "reversed", "forward", "split_vs_unsplit_records", "output_times_with_empty_state", "prototype_with_number", "ncargs_data_model_given"]
+MANDATORY = ["lonlat_in_output_and_empty_state_output_time", "steps_not_multiple_of_period", "last_file_partial", "last_file_full", "single_record_run", "sparse", "dense", "reversed", "forward", "split_vs_unsplit_records", "output_times_with_empty_state", "prototype_with_number", "ncargs_data_model_given"]
 EXHAUSTIVE = {"quick": True, "thorough": True}
 ASSUMPTIONS = ["cold start only (warm start is C08)"]
 TIMEOUT = {"quick": 900, "thorough": 3400}
@@ -88,7 +88,9 @@ def run_case(case: dict[str, Any], wd: Path) -> dict[str, Any]:
     sit["ncargs_data_model_given"] = int(ncargs is not None)
     base = dict(salt=ns * 100 + P, dt=dt, filename=proto, ncargs=ncargs, nsteps=ns, period=P, layout=case["layout"], reversed=rev, reference=None,
                 releases=rels, kills=kills_, pvars=case["pvars"],
-                lonlat=False, enc="f8", speed=0.07, continuous=0)
+                lonlat=bool((ns + 2 * P) % 4 == 1), enc="f8", speed=0.07, continuous=0)
+    sit["lonlat_in_output"] = int(base["lonlat"])
+    sit["lonlat_in_output_and_empty_state_output_time"] = int(base["lonlat"] and bool(sit.get("output_times_with_empty_state")))
     unsplit = None
     want_times = [tadd(C.T0, sgn * k * P * dt) for k in range(nrec)]
     for numrec in case["numrecs"]:
